@@ -1,6 +1,7 @@
 package props
 
 import (
+	"fmt"
 	"go/token"
 	"go/types"
 
@@ -12,7 +13,7 @@ import (
 func init() {
 	register(&Spec{ID: "C14", Title: "Transport failure yields a clean prefix and then an error", Run: runC14,
 		Meta: core.Meta{
-			Explanation: "Decides that the error path from the transport to the consumer is unbroken and that only completely received packets are parsed. R14.1: every transport read (io.Reader.Read / io.ReadFull on the connection) in PacketHeader.ReadFrom and Packet.ReadFrom has its error tested at once and every failure return carries the read error (%w), the error itself or ErrEOFAfterZeroRead — never nil. R14.2: a nil-error return of Packet.ReadFrom is dominated by totalBytes == Header.Length, a nil-error return of PacketHeader.ReadFrom by the full-header read succeeding; every return of Packet.ReadFrom whose error may satisfy errors.Is(err, io.EOF) (which Conn.ReadFrom treats as an orderly end and still parses the packet) lies only on paths where the body is complete or the error is not EOF. R14.3: every CFG cycle that contains a transport read tests a context's Err() with an exit, and every way back to the loop head after a failed read passes a context Err() test (bounded partial-body wait). R14.4: in Conn.ReadFrom every path to WritePacket(packet) has err == nil or errors.Is(err, io.EOF); the complementary path sends an error wrapping err on Conn.errCh; the loop ends after an EOF. R14.5: NextPackage receives from Conn.errCh in its blocking select and returns a non-nil error wrapping the received value. R14.6: in NextPackage every path to the blocking select (which offers the error queues) first passes the non-blocking receive from packageCh: packages parsed from completely received packets are delivered before the transport error that followed them. R14.7: every return of the reader goroutine is under `connection context done` or `errors.Is(err, io.EOF)`; a reader that gives up on other errors stops refilling Conn.errCh and only the first waiter learns that the transport died.",
+			Explanation: "Decides that the error path from the transport to the consumer is unbroken and that only completely received packets are parsed. R14.1: every transport read (io.Reader.Read / io.ReadFull on the connection) in PacketHeader.ReadFrom and Packet.ReadFrom has its error tested at once and every failure return carries the read error (%w), the error itself or ErrEOFAfterZeroRead — never nil. R14.2: a nil-error return of Packet.ReadFrom is dominated by totalBytes == Header.Length, a nil-error return of PacketHeader.ReadFrom by the full-header read succeeding; every return of Packet.ReadFrom whose error may satisfy errors.Is(err, io.EOF) (which Conn.ReadFrom treats as an orderly end and still parses the packet) lies only on paths where the body is complete or the error is not EOF. R14.3: every CFG cycle that contains a transport read tests a context's Err() with an exit, and every way back to the loop head after a failed read passes a context Err() test (bounded partial-body wait). R14.4: in Conn.ReadFrom every path to WritePacket(packet) has err == nil or errors.Is(err, io.EOF), and conversely every path with err == nil or EOF reaches WritePacket (or reports an unknown channel on Conn.errCh) before it loops or returns; the complementary path sends an error wrapping err on Conn.errCh; the loop ends after an EOF. R14.5: NextPackage receives from Conn.errCh in its blocking select and returns a non-nil error wrapping the received value. R14.6: in NextPackage every path to the blocking select (which offers the error queues) first passes the non-blocking receive from packageCh: packages parsed from completely received packets are delivered before the transport error that followed them. R14.8: Conn.errCh and Channel.errCh are sent to only on the reader goroutine's path (functions statically reachable from (*Conn).ReadFrom); a consumer-side function (e.g. a failed request write in sendPacket) that also sends there blocks its caller — without looking at the caller's context — as soon as the bounded queue is full, which on a dead transport it is. R14.7: every return of the reader goroutine is under `connection context done` or `errors.Is(err, io.EOF)`; a reader that gives up on other errors stops refilling Conn.errCh and only the first waiter learns that the transport died.",
 			NotDecided:  "Which prefix of packages is delivered, the spurious-DONE clause and elapsed time are not decided (crash points are not enumerated).",
 			Assumptions: []string{"io.ReadFull returns err == nil only when the buffer was filled (standard library contract)"},
 		}})
@@ -34,10 +35,12 @@ func runC14(r *core.Run) {
 	r.Rule("R14.1", "transport read errors are tested at once and never turned into success", 2, true)
 	r.Rule("R14.2", "only completely received packets are returned without error; EOF-like errors only with a complete body", 3, false)
 	r.Rule("R14.3", "every loop around a transport read is bounded by a context/timeout test", 1, true)
-	r.Rule("R14.4", "Conn.ReadFrom parses a packet only if err == nil or EOF, reports every other error on Conn.errCh", 3, false)
+	r.Rule("R14.4", "Conn.ReadFrom parses a packet if and only if err == nil or EOF, reports every other error on Conn.errCh", 4, false)
 	r.Rule("R14.5", "NextPackage surfaces Conn.errCh errors", 1, false)
 	r.Rule("R14.6", "queued packages are delivered before a queued error (prefix, then error)", 1, false)
 	r.Rule("R14.7", "the reader goroutine only ends when the connection context is done or after an EOF", 2, false)
+	r.Rule("R14.8", "only the reader goroutine reports on the error queues; request writes return their error", 1, false)
+	defer c14ErrQueueWriters(r)
 
 	eofZero := p.Global("tds", "ErrEOFAfterZeroRead")
 	isEOFZero := func(v ssa.Value) bool {
@@ -69,7 +72,7 @@ func runC14(r *core.Run) {
 	r.Stats["transport_read_sites"] = nreads
 
 	c14Complete(r, "R14.2", isEOFZero)
-	c14Conn(r)
+	c14Conn(r, "R14.4")
 	c14NextPackage(r)
 	c14Order(r)
 	c14ReaderExits(r)
@@ -445,7 +448,7 @@ func c14Complete(r *core.Run, rule string, isEOFZero func(ssa.Value) bool) {
 	r.Check(okAll, rule, "(*tds.PacketHeader).ReadFrom success", hf.Pos(), "header parsed only after all 8 bytes were read without error", why)
 }
 
-func c14Conn(r *core.Run) {
+func c14Conn(r *core.Run, rule string) {
 	p := r.Prog
 	fn := p.Func("tds", "Conn", "ReadFrom")
 	errCh := p.Field("tds", "Conn", "errCh")
@@ -461,7 +464,7 @@ func c14Conn(r *core.Run) {
 		}
 	}
 	if rd == nil || wr == nil {
-		r.Unknown("R14.4", "(*tds.Conn).ReadFrom", fn.Pos(), "packet.ReadFrom / WritePacket calls not found")
+		r.Unknown(rule, "(*tds.Conn).ReadFrom", fn.Pos(), "packet.ReadFrom / WritePacket calls not found")
 		return
 	}
 	e, _ := errResult(rd)
@@ -486,9 +489,9 @@ func c14Conn(r *core.Run) {
 	}
 	// the packet handed to WritePacket is the one just read
 	samePacket := len(wr.Common().Args) == 2 && len(rd.Common().Args) >= 1 && wr.Common().Args[1] == rd.Common().Args[0]
-	r.Check(samePacket, "R14.4", "WritePacket receives the packet just read", wr.Pos(), "same *Packet value", "WritePacket is handed a different packet than the one ReadFrom filled")
+	r.Check(samePacket, rule, "WritePacket receives the packet just read", wr.Pos(), "same *Packet value", "WritePacket is handed a different packet than the one ReadFrom filled")
 
-	badParse, badReport := "", ""
+	badParse, badReport, badDrop := "", "", ""
 	h, loop := core.InnermostLoop(rd.Block())
 	core.EnumPaths(rd.Block(), func(b *ssa.BasicBlock) bool { return b == wr.Block() || b == h }, nil, 5000, func(pa core.Path, ended bool) {
 		last := pa.Blocks[len(pa.Blocks)-1]
@@ -514,6 +517,23 @@ func c14Conn(r *core.Run) {
 				badParse = "WritePacket is reachable although packet.ReadFrom failed with an error other than EOF: an incomplete packet is parsed"
 			}
 			return
+		}
+		if !(errNonNil && notEOF) {
+			// err == nil or EOF: the packet is complete; it is routed (the other end of this enumeration) or its
+			// channel is unknown and that is reported on Conn.errCh
+			reported := false
+			for _, b := range pa.Blocks {
+				for _, in := range b.Instrs {
+					if s, ok := in.(*ssa.Send); ok {
+						if f, _ := core.FieldLoad(s.Chan); f == errCh {
+							reported = true
+						}
+					}
+				}
+			}
+			if !reported {
+				badDrop = "a packet that packet.ReadFrom returned completely (err == nil, or io.EOF together with the last bytes) can leave the loop body without being handed to WritePacket: the last packet of a response is lost when the peer closes right behind it"
+			}
 		}
 		if errNonNil && notEOF {
 			// must have sent on errCh a value wrapping e
@@ -544,8 +564,9 @@ func c14Conn(r *core.Run) {
 		}
 	})
 	_ = loop
-	r.Check(badParse == "", "R14.4", "WritePacket only after err == nil or EOF", wr.Pos(), "every path to WritePacket has err == nil or errors.Is(err, io.EOF)", badParse)
-	r.Check(badReport == "", "R14.4", "non-EOF read errors reach Conn.errCh", rd.Pos(), "every such path sends fmt.Errorf(...%w, err) on Conn.errCh", badReport)
+	r.Check(badParse == "", rule, "WritePacket only after err == nil or EOF", wr.Pos(), "every path to WritePacket has err == nil or errors.Is(err, io.EOF)", badParse)
+	r.Check(badDrop == "", rule, "every completely received packet is routed", rd.Pos(), "paths with err == nil or EOF reach WritePacket (or report an unknown channel)", badDrop)
+	r.Check(badReport == "", rule, "non-EOF read errors reach Conn.errCh", rd.Pos(), "every such path sends fmt.Errorf(...%w, err) on Conn.errCh", badReport)
 
 	// after WritePacket: EOF ends the reader
 	ends := false
@@ -556,7 +577,7 @@ func c14Conn(r *core.Run) {
 			}
 		}
 	}
-	r.Check(ends, "R14.4", "reader ends after EOF", wr.Pos(), "errors.Is(err, io.EOF) after WritePacket returns", "after an EOF the reader loop does not end")
+	r.Check(ends, rule, "reader ends after EOF", wr.Pos(), "errors.Is(err, io.EOF) after WritePacket returns", "after an EOF the reader loop does not end")
 }
 
 func c14NextPackage(r *core.Run) {
@@ -665,26 +686,7 @@ func c14Order(r *core.Run) {
 	p := r.Prog
 	fn := p.Func("tds", "Channel", "NextPackage")
 	fPkgCh := p.Field("tds", "Channel", "packageCh")
-	var fast, blocking *ssa.Select
-	for _, b := range fn.Blocks {
-		for _, in := range b.Instrs {
-			sel, ok := in.(*ssa.Select)
-			if !ok {
-				continue
-			}
-			hasPkg := false
-			for _, st := range sel.States {
-				if f, _ := core.FieldLoad(st.Chan); f == fPkgCh && st.Dir == types.RecvOnly {
-					hasPkg = true
-				}
-			}
-			if sel.Blocking {
-				blocking = sel
-			} else if hasPkg {
-				fast = sel
-			}
-		}
-	}
+	fast, blocking := nextPackageSelects(fn, fPkgCh)
 	key := "NextPackage: queued packages before queued errors"
 	if blocking == nil || fast == nil {
 		r.Bad("R14.6", key, fn.Pos(), "NextPackage has no non-blocking receive from packageCh ahead of its blocking select: when a package and a transport error are both queued, select picks at random and the error can overtake packages from completely received packets")
@@ -743,4 +745,74 @@ func c14ReaderExits(r *core.Run) {
 	if n == 0 {
 		r.Unknown("R14.7", "Conn.ReadFrom: return", fn.Pos(), "no returns")
 	}
+}
+
+// nextPackageSelects finds the non-blocking receive from packageCh and the
+// blocking select of NextPackage.
+func nextPackageSelects(fn *ssa.Function, fPkgCh *types.Var) (fast, blocking *ssa.Select) {
+	for _, b := range fn.Blocks {
+		for _, in := range b.Instrs {
+			sel, ok := in.(*ssa.Select)
+			if !ok {
+				continue
+			}
+			hasPkg := false
+			for _, st := range sel.States {
+				if f, _ := core.FieldLoad(st.Chan); f == fPkgCh && st.Dir == types.RecvOnly {
+					hasPkg = true
+				}
+			}
+			if sel.Blocking {
+				blocking = sel
+			} else if hasPkg {
+				fast = sel
+			}
+		}
+	}
+	return
+}
+
+// c14ErrQueueWriters: R14.8.
+func c14ErrQueueWriters(r *core.Run) {
+	p := r.Prog
+	queues := map[*types.Var]string{
+		p.Field("tds", "Conn", "errCh"):    "Conn.errCh",
+		p.Field("tds", "Channel", "errCh"): "Channel.errCh",
+	}
+	reader := readerPathFuncs(p)
+	n := 0
+	for _, fn := range p.ModuleFuncs() {
+		for _, b := range fn.Blocks {
+			for _, in := range b.Instrs {
+				var ch ssa.Value
+				var pos token.Pos
+				switch x := in.(type) {
+				case *ssa.Send:
+					ch, pos = x.Chan, x.Pos()
+				case *ssa.Select:
+					for _, st := range x.States {
+						if st.Dir == types.SendOnly {
+							if f, _ := core.FieldLoad(st.Chan); queues[f] != "" && !reader[fn] && !x.Blocking {
+								continue // a non-blocking attempt cannot park the caller
+							}
+							ch, pos = st.Chan, x.Pos()
+						}
+					}
+				}
+				if ch == nil {
+					continue
+				}
+				f, _ := core.FieldLoad(ch)
+				name := queues[f]
+				if name == "" {
+					continue
+				}
+				n++
+				if !reader[fn] {
+					r.Bad("R14.8", core.FuncName(fn)+": send on "+name+" outside the reader goroutine", pos, core.FuncName(fn)+" is not on the reader goroutine's path but sends on the bounded error queue "+name+": on a dead transport the reader has already filled the queue, so this send parks the consumer's own call (no context is consulted) instead of returning the error")
+				}
+			}
+		}
+	}
+	r.Check(n > 0, "R14.8", "error queues are written by the reader goroutine only", token.NoPos, fmt.Sprintf("%d sends on Conn.errCh/Channel.errCh, all on the reader path", n), "no send on the error queues seen: the rule does not see the code")
 }
